@@ -646,9 +646,11 @@ def run(tier, seed):
         extra = [g.tree() for _ in range(12000)] + enumerate_small()
         failing += evaluate(ck, pool, extra)
     # known-finding witnesses must still fail (else the entry is stale)
+    from vlib import known_findings
+    known = {k["id"]: k for k in known_findings("C04")}
     for idx, tag in WITNESS_TAGS.items():
         src = body_text(CORPUS[idx])
-        if not any(f["source"] == src and tag in f["tags"] for f in failing):
+        if tag in known and not any(f["source"] == src and tag in f["tags"] for f in failing):
             ck.notes.append(f"known finding {tag}: witness `{src}` no longer fails — entry is stale; "
                             "the model switch for it is taken as repaired in this run")
     failing.sort(key=lambda f: len(f["source"]))
@@ -656,8 +658,6 @@ def run(tier, seed):
     tagged = [f for f in failing if f["tags"]]
     ck.cov["known_class_failures"] = len(tagged)
     reported = 0
-    from vlib import known_findings
-    known = {k["id"]: k for k in known_findings("C04")}
     for f in tagged:
         if ck.impl_violation(f["source"], f, tags=f["tags"][:1]):      # not (any longer) a known entry
             reported += 1
